@@ -42,7 +42,7 @@ Qed.
 (* ================= the content of a paragraph as groups ================= *)
 Definition run_attrs (r : trun) : list xattr := opt_attr [] s_style (tr_style r) ++ out_attrs (tr_attrs r).
 Definition grun (w : str) (r : trun) : group :=
-  GSpan w (nm ns_ttml s_span) (run_attrs r) (mkPiece [] (tr_text r) []) [].
+  GSpan w (nm ns_ttml s_span) (run_attrs r) (mkPiece [] (tr_txt r) []) [].
 Fixpoint glines (w : str) (ls : list (list trun)) : list group :=
   match ls with
   | [] => []
@@ -135,7 +135,7 @@ Proof.
 Qed.
 
 Lemma run_ok_parts {V} (styles : list (str * V)) r : run_ok styles r = true ->
-  no_nl (tr_text r) = true /\ ref_in styles (tr_style r) = true /\ attrs_ok (tr_attrs r) = true.
+  no_nl (tr_txt r) = true /\ ref_in styles (tr_style r) = true /\ attrs_ok (tr_attrs r) = true.
 Proof.
   unfold run_ok. intros H. apply andb_true_iff in H. destruct H as [H H3]. apply andb_true_iff in H. destruct H as [H1 H2].
   repeat split; assumption.
